@@ -22,6 +22,8 @@ Inductive instr :=
 | IfNonEmpty (body : list instr) (* if views: body *)
 | Lock                         (* registry._lock.__enter__ *)
 | Write (t : target)           (* <target>[key] = views *)
+| WriteLoad (t : target)       (* finer atomicity of the same statement: read the dictionary ... *)
+| WriteStore (t : target)      (* ... then store it back with the new entry (read-modify-write) *)
 | Unlock                       (* registry._lock.__exit__ *)
 | Return                       (* return views *)
 | RegisterAdapter              (* register_view(...): the adapter registry changes *)
